@@ -35,6 +35,17 @@ def sumr_ge(Aa, m, p):
 
 
 ENV['SUMR_GE'] = sumr_ge
+
+
+def dotsq_ge(Aa, m, p):
+    """a sum of squares is at least any one of its terms: DOT(A, 0, 1, A, m) >= A[p]^2 for 0 <= p < m, and >= 0
+    (induction on m; engine/selftest.py)"""
+    from engine.specfun import DOT
+    Aa, m, p = [getattr(t, 'z', t) for t in (Aa, m, p)]
+    return _z3.And(_z3.Implies(m >= 0, DOT(Aa, 0, 1, Aa, m) >= 0), _z3.Implies(_z3.And(0 <= p, p < m), DOT(Aa, 0, 1, Aa, m) >= Aa[p] * Aa[p]))
+
+
+ENV['DOTSQ_GE'] = dotsq_ge
 fn(A + '_get_psd_tone', S_, sig='(const dsplib::arr_real &, dsplib::real_t)', key='_get_psd_tone(spec,freq)', serves=['C19', 'C05'], pure=True, extra_env=ENV,
    requires=[('nonempty', 'And(spec.len >= 1, spec.len <= 262144)'), ('frequency', 'And(tone_freq >= -4, tone_freq <= 4)')], throws='False',
    body_assumes=['INSLICE_AX()'],
